@@ -613,7 +613,9 @@ def run(ctx):
                 case = {"slow_consumer": True, "v1": v1, "v2": v2, "singles": n_before, "batch": b}
                 if ctx.mine():
                     exec_slow_consumer(ctx, case)
-    for v1, v2 in (("2025-06-18", None), ("2025-03-26", None), ("2025-06-18", "2025-03-26"), ("2025-03-26", "2025-06-18"), (None, None)):
+    for v1, v2 in (("2025-06-18", None), ("2025-03-26", None), ("2025-06-18", "2025-03-26"), ("2025-03-26", "2025-06-18"), (None, None),
+                   # the second connection settles on the very version the first one had
+                   ("2025-06-18", "2025-06-18"), ("2025-03-26", "2025-03-26"), ("2026-01-01", "2026-01-01")):
         for b in (["req", "note"], ["resp", "bad_obj"]):
             case = {"reentered": True, "first": v1, "second": v2, "batch": b}
             if ctx.mine():
